@@ -40,7 +40,11 @@ class Prop(SeqProp):
         for p in pts:
             ops.append(f"get {p}"); impl.append(["get", p])
             ops.append(f"has {p}"); impl.append(["has", p])
-        ops += ["len", "iter"]; impl += [["len"], ["iter"]]
+        # observations are repeatable: a second iteration, one after an abandoned iteration and a nested one see the same map
+        ops += ["len", "iter", "iter", "iter", "iter", "len"]
+        impl += [["len"], ["iter", 0], ["iter", 0], ["iter", 1], ["iter", 2], ["len"]]
+        if pts:
+            ops.append(f"get {pts[0]}"); impl.append(["get", pts[0]])
         return Case(ops, {"impl": impl}, label)
 
     def gen(self, rng, n, tier):
@@ -96,7 +100,19 @@ class Prop(SeqProp):
                 elif st[0] == "len":
                     out.append(f"ret {len(m)}")
                 elif st[0] == "iter":
-                    out.append("ret " + ",".join(f"{round(s * 2)}:{round(e * 2)}:{enc_val(v) + 1}" for (s, e), v in m))
+                    mode = st[1] if len(st) > 1 else 0
+                    if mode == 1:
+                        for _ in m:  # an abandoned iteration before this one
+                            break
+                        items = list(m)
+                    elif mode == 2:
+                        items = []
+                        for x in m:  # nested: the inner iteration neither disturbs nor is disturbed by the outer one
+                            inner = list(m)
+                            items.append(x if inner == list(m) and len(inner) == len(m) else ("inner", "differs"))
+                    else:
+                        items = list(m)
+                    out.append("ret " + ",".join(f"{round(s * 2)}:{round(e * 2)}:{enc_val(v) + 1}" for (s, e), v in items))
                 else:
                     out.append("bad-op")
             except BaseException as e:  # noqa
